@@ -312,8 +312,13 @@ def run(ctx: Ctx) -> None:
     # R4
     he = repo.func("protocol.h11", "H11Protocol._handle_events")
     hs = [h for t in walk_local(he) if isinstance(t, ast.Try) for h in t.handlers if "RemoteProtocolError" in norm(h.type)]
-    ctx.need(len(hs) == 1, "H11Protocol._handle_events: no except h11.RemoteProtocolError handler")
+    if len(hs) != 1:
+        ctx.check("C04.R4", "protocol.h11:H11Protocol._handle_events", "except h11.RemoteProtocolError handler present", False, "next_event() is no longer covered by a handler for h11.RemoteProtocolError: malformed HTTP/1 input is not answered with the hinted 4xx", he)
+        ctx.check("C04.R4", "protocol.h11:H11Protocol._handle_events", "RemoteProtocolError -> send(Closed())", False, "no handler", he)
+        hs = [None]
     h = hs[0]
+    if h is None:
+        h = ast.ExceptHandler(type=None, name="error", body=[ast.Pass()])
     er = [c for c in ast.walk(h) if isinstance(c, ast.Call) and call_name(c) == "self._send_error_response"]
     ok = len(er) == 1 and norm(arg(er[0], 0)) == f"{h.name}.error_status_hint" and ("self.connection.our_state in {h11.IDLE, h11.SEND_RESPONSE}", True) in guard_atoms(er[0], stop=h)
     ctx.check("C04.R4", "protocol.h11:H11Protocol._handle_events", "RemoteProtocolError -> error response with error_status_hint while our_state in {IDLE, SEND_RESPONSE}", ok, "malformed HTTP/1 must be answered with the hinted 4xx only when a response can still be started", h)
